@@ -435,6 +435,9 @@ def gamma7(tier, seed):
     out.append({"id": "g7/lead/and_times", "doc": doc_of([{"$and": ["mov", "add"], "times": {"min": 1, "max": 2}}, "call"]), "feature": "lead_and", "lemmas": L})
     out.append({"id": "g7/lead/anyorder_times", "doc": doc_of([{"$and_any_order": ["mov", "add"], "times": 2}, "call"]), "feature": "lead_anyorder", "lemmas": L})
     out.append({"id": "g7/lead/capture_ins", "doc": doc_of(["&i", "call", "&i"]), "feature": "lead_capture", "lemmas": ("SA", "HX", "EA", "NE"), "capture_order": ["&i"], "env_dom": {"&i": ["mov,a,b", "ret,"]}})
+    # an instruction capture covers ONE instruction, an operand capture ONE operand (no element spans two of them)
+    out.append({"id": "g7/capture_span_ins", "doc": doc_of(["push", "&i", "ret"]), "feature": "capture_span", "lemmas": ("AEM", "EA"), "capture_order": ["&i"], "env_dom": {"&i": ["mov,a", "mov,a,|0::add,b", "mov,a,|0::add,b,|1::sub"]}})
+    out.append({"id": "g7/capture_span_op", "doc": doc_of([{"mov": ["&x", "c"]}, "ret"]), "feature": "capture_span", "lemmas": ("AEM", "EA"), "capture_order": ["&x"], "env_dom": {"&x": ["a", "a,b", "a,c,|0::mov,a"]}})
     out.append({"id": "g7/lead/capture_op", "doc": doc_of([{"mov": ["&x"]}, {"add": ["&x"]}]), "feature": "lead_capture", "lemmas": ("SA", "HX", "EA", "NE"), "capture_order": ["&x"], "env_dom": {"&x": ["a", "0x10"]}})
     # operand-count mismatch: fewer / equal / more operand names than the instruction has operands
     for k in range(0, 5):
@@ -531,6 +534,11 @@ def gamma5(tier, seed):
     T("op/after_repeated_group", [{"$or": ["mov", {"add": ["a"]}], "times": {"min": 1, "max": 2}}, {"mov": ["&x"]}, {"push": ["&x"]}], ["&x"], {"&x": D2}, "cap_after_repeated_item")
     # ---- instruction captures
     DI = [ins_text("mov", [""]), ins_text("mov", ["a"]), ins_text("mov", ["a", "b"]), ins_text("movl", ["a"]), ins_text("mov", ["ab"])]
+    # values that SPAN two instructions / two operands are never bindings (the compiled matcher must refuse them too)
+    SPAN_I, SPAN_O = "mov,a,|0::ret", "a,b"
+    T("ins/span_is_no_binding", ["push", "&i", "ret"], ["&i"], {"&i": [DI[1], SPAN_I, "mov,a,|0::mov,a,b,|0::add"]}, "cap_instruction_span", lemmas=("AEM",))
+    T("ins/span_is_no_binding_twice", ["&i", "ret", "&i"], ["&i"], {"&i": [DI[1], SPAN_I]}, "cap_instruction_span", lemmas=("AEM",))
+    T("op/span_is_no_binding", [{"mov": ["&x"]}, {"add": ["&x"]}], ["&x"], {"&x": ["a", SPAN_O, "a,|0::add,a"]}, "cap_operand_span", lemmas=("AEM",))
     T("ins/define_only", ["&i", "ret"], ["&i"], {"&i": DI}, "cap_instruction")
     T("ins/twice", ["&i", "&i"], ["&i"], {"&i": DI}, "cap_instruction", lemmas=("AEM", "EA", "NE", "TWIN"), twin=["&i", "zzz"])
     T("ins/separated", ["&i", "ret", "&i"], ["&i"], {"&i": DI}, "cap_instruction")
